@@ -2,8 +2,10 @@
 (***************************************************************************)
 (* C09: constants of SampleAlg.  The leaves are exported by the harness    *)
 (* from the live base samples (T binding, env VF_TABLE, JSON):             *)
-(*   bases     [sp, np]: space and number of points of every element of    *)
-(*             every real base sample (len(points.get(e).coords))          *)
+(*   bases     [sp, np, items, ps]: space and number of points of every    *)
+(*             element of every real base sample (len(points.get(e).coords)),*)
+(*             the sizes of the primitive point sets and the container     *)
+(*             expression that built its PointsSequence                    *)
 (*   atoms     [name, kind, b, p, s]: "plain" base b; "custom" base b with *)
 (*             index p (Sample.new(..., index)); "located" base b =        *)
 (*             Topology._sample(ielems = p, coords, weights);              *)
@@ -18,5 +20,5 @@ MCAtomDefs == Table.atoms
 MCStartAtoms == SaRange(Table.start)
 MCOperands == SaRange(Table.operands)
 \* the slices of the located leaves, for the harness (printed once)
-ASSUME Emit([atomtable |-> AtomTable])
+ASSUME Emit([atomtable |-> AtomTable, basetable |-> BaseTable])
 =============================================================================
